@@ -227,7 +227,7 @@ def fast_mds_rule(ck, prog):
                     v = el[2][0] if isinstance(el, tuple) and el and el[0] == "adt" and el[2] else None
                     got = (v.lin if v.res else li.canon(v.lin)) if isinstance(v, IV) else None
                     want = {ins[j]: mds[i][j] % p for j in range(w) if mds[i][j] % p}
-                    if got != want:
+                    if got != want and not (isinstance(v, IV) and got is not None and li.congruent(got, want, env.get("#facts"))):
                         if imprecise and got is None:
                             continue
                         bad = bad or (i, got, want, imprecise)
